@@ -105,7 +105,7 @@ func runC05CLI(c *engine.Case) engine.Result {
 
 func firstLine(s string) string {
 	if i := strings.Index(s, "\n"); i >= 0 {
-		return s[:i]
+		s = s[:i]
 	}
-	return s
+	return stripStamp(s)
 }
